@@ -287,30 +287,32 @@ theorem pinv_update (s s' : PState) (b b' : AMap Nat) (h : PInv s b) (seq : Key)
   · subst hk; exact hseq e hl hlive
   · rw [hb k hk]; exact h k e (by rw [← hc k hk]; exact hl) hlive
 
-/-- the monitor allows a retry header on a first response, or while budget is left; the new
-    budget `v` is at least the old one minus one, and at least `A - 1` on a first response -/
-theorem pmon_retry (A : Int) (h1 : 1 ≤ A) (b : AMap Nat) (seq : Key) (first : Bool) (n : Nat)
-    (hperm : first = true ∨ 0 < (lookup seq b).getD 0) :
+/-- the monitor allows a retry header on a first response when `A ≥ 1`, or while budget is left;
+    the new budget `v` is at least the old one minus one, and at least `A - 1` in the first case -/
+theorem pmon_retry (A : Int) (b : AMap Nat) (seq : Key) (first : Bool) (n : Nat)
+    (hperm : (first = true ∧ 1 ≤ A) ∨ 0 < (lookup seq b).getD 0) :
     ∃ v, pmon A b ⟨seq, first, true, .retry n⟩ = some (insert seq v b) ∧
-      (lookup seq b).getD 0 - 1 ≤ v ∧ (first = true → A.toNat - 1 ≤ v) := by
+      (lookup seq b).getD 0 - 1 ≤ v ∧ (first = true ∧ 1 ≤ A → A.toNat - 1 ≤ v) := by
   unfold pmon
-  by_cases hf : first = true
+  by_cases hf : first = true ∧ 1 ≤ A
   · refine ⟨max ((lookup seq b).getD 0 - 1) (A.toNat - 1), ?_, ?_, ?_⟩
-    · simp [hf, h1]
+    · simp [hf.1, hf.2]
     · omega
     · intro _; omega
   · have hpos : 0 < (lookup seq b).getD 0 := by
       rcases hperm with h | h
       · exact absurd h hf
       · exact h
+    have hf' : (first && decide (1 ≤ A)) = false := by
+      cases first <;> simp_all
     refine ⟨(lookup seq b).getD 0 - 1, ?_, ?_, ?_⟩
-    · simp [hf, hpos]
+    · simp [hf', hpos]
     · omega
     · intro h; exact absurd h hf
 
-theorem presp_inv (cfg : RCfg) (A : Int) (h1 : 1 ≤ A) (hle : cfg.attempts ≤ A) (s : PState)
+theorem presp_inv (cfg : RCfg) (s : PState)
     (b : AMap Nat) (seq : Key) (first : Bool) (status : Int) (h : PInv s b) :
-    ∃ b', pmon A b ⟨seq, first, inRange cfg status, (presp cfg s seq first status).2⟩ = some b' ∧
+    ∃ b', pmon cfg.attempts b ⟨seq, first, inRange cfg status, (presp cfg s seq first status).2⟩ = some b' ∧
       PInv (presp cfg s seq first status).1 b' := by
   unfold presp
   by_cases hr : inRange cfg status = true
@@ -321,7 +323,7 @@ theorem presp_inv (cfg : RCfg) (A : Int) (h1 : 1 ≤ A) (hle : cfg.attempts ≤ 
       obtain ⟨hl0, hlive0⟩ := cacheGet_some s seq e0 hg
       obtain ⟨h1e, hleb⟩ := h seq e0 hl0 hlive0
       have hpos : 0 < (lookup seq b).getD 0 := by omega
-      obtain ⟨v, hv, hv1, _⟩ := pmon_retry A h1 b seq first e0.next (Or.inr hpos)
+      obtain ⟨v, hv, hv1, _⟩ := pmon_retry cfg.attempts b seq first e0.next (Or.inr hpos)
       simp only
       by_cases hx : e0.left - 1 < 1
       · simp only [hx, if_true]
@@ -345,33 +347,8 @@ theorem presp_inv (cfg : RCfg) (A : Int) (h1 : 1 ≤ A) (hle : cfg.attempts ≤ 
           simp only [Option.getD_some]
           omega
     | none =>
-      by_cases hf : first = true
-      · obtain ⟨v, hv, _, hv2⟩ := pmon_retry A h1 b seq first cfg.cooldown (Or.inl hf)
-        have hv2 := hv2 hf
-        simp only [hf, if_true]
-        by_cases hx : cfg.attempts - 1 < 1
-        · simp only [hx, if_true]
-          refine ⟨_, by simpa [hf] using hv, ?_⟩
-          apply pinv_update s _ b _ h seq
-          · rfl
-          · intro k hk; exact lookup_erase_other _ _ _ hk
-          · intro k hk; exact lookup_insert_other _ _ _ _ hk
-          · intro e hl _; rw [lookup_erase_same] at hl; cases hl
-        · simp only [hx, if_false]
-          refine ⟨_, by simpa [hf] using hv, ?_⟩
-          apply pinv_update s _ b _ h seq
-          · rfl
-          · intro k hk; exact lookup_insert_other _ _ _ _ hk
-          · intro k hk; exact lookup_insert_other _ _ _ _ hk
-          · intro e hl _
-            rw [lookup_insert_same] at hl
-            simp only [Option.some.injEq] at hl
-            subst hl
-            rw [lookup_insert_same]
-            simp only [Option.getD_some]
-            omega
-      · have hf' : first = false := by simpa using hf
-        simp only [hf', Bool.false_eq_true, if_false]
+      -- no live state: NoOp unless this is a first response and at least one attempt is configured
+      have hnoop : ∃ b', pmon cfg.attempts b ⟨seq, first, true, POut.noop⟩ = some b' ∧ PInv s b' := by
         refine ⟨erase seq b, by simp [pmon], ?_⟩
         apply pinv_update s s b _ h seq
         · rfl
@@ -379,6 +356,36 @@ theorem presp_inv (cfg : RCfg) (A : Int) (h1 : 1 ≤ A) (hle : cfg.attempts ≤ 
         · intro k hk; exact lookup_erase_other _ _ _ hk
         · intro e hl hlive
           exact absurd hlive (cacheGet_none s seq hg e hl)
+      by_cases hf : first = true
+      · by_cases hA : cfg.attempts < 1
+        · simpa [hf, hA] using hnoop
+        · have h1 : 1 ≤ cfg.attempts := by omega
+          obtain ⟨v, hv, _, hv2⟩ := pmon_retry cfg.attempts b seq first cfg.cooldown (Or.inl ⟨hf, h1⟩)
+          have hv2 := hv2 ⟨hf, h1⟩
+          simp only [hf, Bool.not_true, Bool.false_eq_true, if_false, hA]
+          by_cases hx : cfg.attempts - 1 < 1
+          · simp only [hx, if_true]
+            refine ⟨_, by simpa [hf] using hv, ?_⟩
+            apply pinv_update s _ b _ h seq
+            · rfl
+            · intro k hk; exact lookup_erase_other _ _ _ hk
+            · intro k hk; exact lookup_insert_other _ _ _ _ hk
+            · intro e hl _; rw [lookup_erase_same] at hl; cases hl
+          · simp only [hx, if_false]
+            refine ⟨_, by simpa [hf] using hv, ?_⟩
+            apply pinv_update s _ b _ h seq
+            · rfl
+            · intro k hk; exact lookup_insert_other _ _ _ _ hk
+            · intro k hk; exact lookup_insert_other _ _ _ _ hk
+            · intro e hl _
+              rw [lookup_insert_same] at hl
+              simp only [Option.some.injEq] at hl
+              subst hl
+              rw [lookup_insert_same]
+              simp only [Option.getD_some]
+              omega
+      · have hf' : first = false := by simpa using hf
+        simpa [hf'] using hnoop
   · have hr' : inRange cfg status = false := by simpa using hr
     simp only [hr', Bool.false_eq_true, if_false]
     refine ⟨erase seq b, by simp [pmon], ?_⟩
@@ -388,15 +395,15 @@ theorem presp_inv (cfg : RCfg) (A : Int) (h1 : 1 ≤ A) (hle : cfg.attempts ≤ 
     · intro k hk; exact lookup_erase_other _ _ _ hk
     · intro e hl _; rw [lookup_erase_same] at hl; cases hl
 
-theorem prun_holds (cfg : RCfg) (A : Int) (h1 : 1 ≤ A) (hle : cfg.attempts ≤ A) (ops : List POp) :
-    ∀ (s : PState) (b : AMap Nat), PInv s b → pholdsFrom A b (prun cfg s ops) = true := by
+theorem prun_holds (cfg : RCfg) (ops : List POp) :
+    ∀ (s : PState) (b : AMap Nat), PInv s b → pholdsFrom cfg.attempts b (prun cfg s ops) = true := by
   induction ops with
   | nil => intro s b _; simp [prun, pholdsFrom]
   | cons o os ih =>
     intro s b hinv
     cases o with
     | resp seq first status =>
-      obtain ⟨b', hm, hinv'⟩ := presp_inv cfg A h1 hle s b seq first status hinv
+      obtain ⟨b', hm, hinv'⟩ := presp_inv cfg s b seq first status hinv
       simp only [prun, pstepOp, pholdsFrom, hm]
       exact ih _ _ hinv'
     | adv d =>
@@ -424,12 +431,11 @@ theorem pmon_frame (A : Int) (s : Key) (b b' : AMap Nat) (e : PEvent)
         · cases hm; exact lookup_insert_other _ _ _ _ hs
         · cases hm
 
-theorem pmon_potential (A : Int) (h1 : 1 ≤ A) (s : Key) (b b' : AMap Nat) (e : PEvent)
+theorem pmon_potential (A : Int) (s : Key) (b b' : AMap Nat) (e : PEvent)
     (hm : pmon A b e = some b') :
     (lookup s b').getD 0 + countRetryHdr s [e] ≤ (lookup s b).getD 0 + A.toNat * countFirstIn s [e] := by
   by_cases hs : e.seq = s
   · subst hs
-    have hA : 1 ≤ A.toNat := by omega
     unfold pmon at hm
     dsimp only at hm
     by_cases hin : e.inRange = true
@@ -445,6 +451,7 @@ theorem pmon_potential (A : Int) (h1 : 1 ≤ A) (s : Key) (b b' : AMap Nat) (e :
         · simp only [hf, if_true] at hm
           cases hm
           simp only [Bool.and_eq_true, decide_eq_true_eq] at hf
+          have hA : 1 ≤ A.toNat := by omega
           simp only [lookup_insert_same, Option.getD_some, countRetryHdr, countFirstIn, List.filter_cons,
             decide_true, ho, hf.1, hin, Bool.and_self, Bool.true_and, List.filter_nil]
           simp
@@ -483,7 +490,7 @@ theorem countFirstIn_cons (s : Key) (e : PEvent) (l : List PEvent) :
   split <;> simp <;> omega
 
 /-- What acceptance by the monitor means in numbers. -/
-theorem pholdsFrom_bound (A : Int) (h1 : 1 ≤ A) (s : Key) (l : List PEvent) :
+theorem pholdsFrom_bound (A : Int) (s : Key) (l : List PEvent) :
     ∀ b : AMap Nat, pholdsFrom A b l = true →
       countRetryHdr s l ≤ (lookup s b).getD 0 + A.toNat * countFirstIn s l := by
   induction l with
@@ -496,7 +503,7 @@ theorem pholdsFrom_bound (A : Int) (h1 : 1 ≤ A) (s : Key) (l : List PEvent) :
     | some b' =>
       simp only [hm] at hh
       have h2 := ih b' hh
-      have h3 := pmon_potential A h1 s b b' e hm
+      have h3 := pmon_potential A s b b' e hm
       rw [countRetryHdr_cons, countFirstIn_cons, Nat.mul_add]
       omega
 
